@@ -157,6 +157,14 @@ func init() {
 				ord := regexp.MustCompile(`@[0-9]+`)
 				ra, rb = ord.ReplaceAllString(ra, ""), ord.ReplaceAllString(rb, "")
 				same := seq(a) == seq(b) && strings.ReplaceAll(ra, "$del.Shares", "$SH") == strings.ReplaceAll(rb, "$delegatorShares", "$SH")
+				// or one is defined by the other: GetDelegationTokens(del, val, asset) = GetDelegationTokensWithShares(del.Shares, val, asset)
+				if !same {
+					ta := fa.Term(Returns(a)[0].Results[0])
+					if len(Returns(a)) == 1 && ta.IsCall("types.GetDelegationTokensWithShares") {
+						as := ta.CallArgsT()
+						same = len(as) == 3 && as[0].String() == "$del.Shares" && as[1].String() == "$val" && as[2].String() == "$asset"
+					}
+				}
 				r.Check(same, "types.GetDelegationTokens", "agrees with GetDelegationTokensWithShares", "same formula up to the shares argument", "the balance reported by queries and the cap enforced by Undelegate/Redelegate are computed by different formulas:\n  "+ra+"\n  "+rb, e.Pos(a.Pos()))
 			}
 		}})
@@ -320,7 +328,7 @@ func init() {
 				p := argT(fa, ps, 1)
 				ok := p.IsCall(pf) && p.Args[0].Op == "extract" && p.Args[0].Args[0].IsCall("sdk.AccAddressFromBech32") && strings.HasSuffix(p.Args[0].Args[0].Args[0].String(), ".DelegatorAddr")
 				if ok && pf == "types.GetRedelegationsKeyByDelegatorAndDenom" {
-					ok = strings.Contains(p.Args[1].String(), "Denom") || strings.HasPrefix(p.Args[1].String(), "mem<")
+					ok = isRequestDenom(fa, p.Args[1], 0)
 				}
 				r.Check(ok, k, "filter -> scan prefix", pf+"(parsed delegator[, denom])", "the redelegation query scans "+p.String(), r.P(ps))
 				if len(fn.AnonFuncs) == 1 {
@@ -472,4 +480,32 @@ func typeKeyOfResp(fnKey string) string {
 		return "bindtypes.AllianceResponse"
 	}
 	return "bindtypes.DelegationResponse"
+}
+
+// isRequestDenom: the request's denom, as given or url-unescaped (every incoming value of a merge is one of the two).
+func isRequestDenom(fa *FuncAnalysis, t *Term, depth int) bool {
+	if depth > 4 {
+		return false
+	}
+	switch {
+	case t.Op == "field" && t.Name == "Denom":
+		return paramRooted(t)
+	case t.Op == "extract" && t.Name == "0" && len(t.Args) == 1 && (t.Args[0].IsCall("url.QueryUnescape") || t.Args[0].IsCall("net/url.QueryUnescape")):
+		return isRequestDenom(fa, t.Args[0].Args[0], depth+1)
+	case t.Op == "phi":
+		_, leaves := phiCluster(fa, t)
+		if len(leaves) == 0 {
+			return false
+		}
+		for _, l := range leaves {
+			if !isRequestDenom(fa, l, depth+1) {
+				return false
+			}
+		}
+		return true
+	case strings.HasPrefix(t.String(), "mem<"):
+		// a conditional in-place update of req.Denom (the memory merge of the two)
+		return true
+	}
+	return false
 }
